@@ -37,6 +37,9 @@ pub enum Act {
     /// ST_STATE whose seq_nr is one ahead and which acknowledges the endpoint's FIN
     /// (what some clients send instead of FIN)
     PeerStateAsFin,
+    /// a datagram with this connection's identifiers and absurd fields / malformed bytes (C10);
+    /// the value seeds its construction
+    PeerHostile(u64),
     // application actions on the real endpoint
     Write(usize),
     Shutdown,
@@ -200,6 +203,42 @@ pub async fn hs_scenario(world: Arc<World>, cfg: HsCfg, case_seed: u64) -> HsOut
                 p.seq = peer.first_seq.wrapping_add(peer_sent as u16);
                 peer.send(p);
             }
+            Act::PeerHostile(seed) => {
+                use crate::fam::hostile::{weird_exts, weird_payload, weird_u16};
+                let mut r = Prng::new(*seed);
+                let mut q = Pkt::new(
+                    *r.pick(&[wire::ST_DATA, wire::ST_DATA, wire::ST_STATE, wire::ST_STATE, wire::ST_FIN, wire::ST_RESET, wire::ST_SYN]),
+                    peer.id_send,
+                    weird_u16(&mut r, peer.first_seq.wrapping_add(peer_sent as u16)),
+                    weird_u16(&mut r, peer.ack_nr()),
+                    0,
+                );
+                if r.chance(0.1) {
+                    // RESET and SYN far less often than the rest: they end the walk early
+                    q.ty = *r.pick(&[wire::ST_DATA, wire::ST_STATE]);
+                }
+                let rnd = r.next_u64() as u32;
+                q.wnd = *r.pick(&[1u32 << 20, 1 << 20, 0, 1, 0xffff_ffff, 0x7fff_ffff, rnd]);
+                q.exts = weird_exts(&mut r);
+                q.payload = if q.ty == wire::ST_DATA || r.chance(0.3) { weird_payload(&mut r) } else { Vec::new() };
+                let mut bytes = q.encode();
+                match r.below(10) {
+                    0 => {
+                        let cut = r.below(bytes.len() as u64 + 1) as usize;
+                        bytes.truncate(cut);
+                    }
+                    1 => bytes[0] = r.next_u64() as u8,
+                    2 => {
+                        bytes.truncate(20);
+                        bytes[1] = *r.pick(&[1u8, 2, 0xff]);
+                        for _ in 0..r.range(1, 40) {
+                            bytes.push(r.next_u64() as u8);
+                        }
+                    }
+                    _ => {}
+                }
+                peer.send_raw(bytes);
+            }
             Act::Write(n) => {
                 if let Some(w) = writer.as_mut() {
                     let buf = gen_vec(key, written, *n);
@@ -265,6 +304,29 @@ pub async fn hs_scenario(world: Arc<World>, cfg: HsCfg, case_seed: u64) -> HsOut
 pub fn run_hs(case_seed: u64, cfg: &HsCfg, keep_snapshots: bool) -> CaseRun<HsOutcome> {
     let cfg2 = cfg.clone();
     run_case(case_seed, Duration::from_secs(600), keep_snapshots, FaultPlan::perfect(case_seed), move |w| hs_scenario(w, cfg2, case_seed))
+}
+
+/// C10 variant: the same walks, longer, with hostile peer datagrams mixed in.
+pub fn generate_hostile(case_seed: u64) -> HsCfg {
+    let mut cfg = generate(case_seed);
+    cfg.silent_initiator = false;
+    let mut rng = Prng::new(case_seed ^ 0x4057);
+    if rng.chance(0.3) {
+        cfg.sock.rx_buf = Some(*rng.pick(&[2000usize, 10_000, 70_000]));
+    }
+    let extra = rng.range(5, 40);
+    for _ in 0..extra {
+        let a = match rng.below(10) {
+            0..=5 => Act::PeerHostile(rng.next_u64()),
+            6 => Act::PeerAckAll,
+            7 => Act::PeerData,
+            8 => Act::Write(rng.log_range(1, 5000) as usize),
+            _ => Act::Advance(*rng.pick(&[1u64, 45, 250, 700]) * MS),
+        };
+        let pos = rng.below(cfg.script.len() as u64 + 1) as usize;
+        cfg.script.insert(pos, a);
+    }
+    cfg
 }
 
 pub fn generate(case_seed: u64) -> HsCfg {
